@@ -48,7 +48,7 @@ def generate(seed: int, tier: str) -> dict:
         world = gen_chain_world(wr)
         profile = "spiral"
     else:
-        world = gen_world(wr, discipline=profile, n_vars=wr.randint(4, 10 if tier == "quick" else 14), max_depth=2, wide=wide_knob(wr, tier, 0.15))
+        world = gen_world(wr, discipline=profile, n_vars=wr.randint(4, 10 if tier == "quick" else 14), max_depth=2, wide=wide_knob(wr, tier, 0.15, cap=300))
     ir = st["inputs"]
     situation = gen_situation(ir, world, max_persons=5)
     inputs = gen_inputs(ir, world, p=0.4)
